@@ -8,7 +8,7 @@ From Coq Require Import ExtrOcamlBasic.
 From Stevia Require Import Base.Res Base.Bytes Base.Utf8 Base.Sip.
 From Stevia Require Import Avl.Impl Avl.Format Avl.Spec Avl.Session.
 From Stevia Require Import Hash.Impl Hash.Format Hash.Spec.
-From Stevia Require Import Arr.Impl Arr.Format Arr.Spec.
+From Stevia Require Import Arr.Impl Arr.Format Arr.Spec Arr.Checked.
 From Stevia Require Import Str.Prefix Pod.PodStr Pod.Pod.
 
 Extraction Language OCaml.
@@ -27,7 +27,7 @@ Extraction "model.ml"
   Hash.Spec.zs_sort
   Hash.Format.hencode Hash.Format.hdecode Hash.Format.hdecode_doc Hash.Format.hdata_len
   (* array sets *)
-  Arr.Spec.astep_c Arr.Spec.ainit_c Arr.Spec.aspec_step Arr.Impl.aderef
+  Arr.Spec.astep_c Arr.Checked.astep_chk Arr.Spec.ainit_c Arr.Spec.aspec_step Arr.Impl.aderef
   Arr.Format.aencode Arr.Format.adecode Arr.Format.adecode_doc
   (* strings and pods *)
   Str.Prefix.new Str.Prefix.from_bytes Str.Prefix.copy_from_str Str.Prefix.payload Str.Prefix.psize
